@@ -221,6 +221,18 @@ T('C01', 'twin-coalesce-explicit-continue', QC,
   "            if value is not None:\n                return value\n        return None",
   "            if value is None:\n                continue\n            return value\n        return None")
 
+T('C01', 'twin-and-through-all-builtin-loop', QC,
+  "        for arg in self.args:\n            value = arg(context)\n            if value is None:\n                return None\n            if not value:\n                return False\n        return True",
+  "        args = iter(self.args)\n        for arg in args:\n            value = arg(context)\n            if value is None or not value:\n                return None if value is None else False\n        return True")
+T('C01', 'twin-or-tracks-null-in-flag', QC,
+  "        r = False\n        for arg in self.args:\n            value = arg(context)\n            if value is None:\n                r = None\n            if value:\n                return True\n        return r",
+  "        seen_null = False\n        for arg in self.args:\n            value = arg(context)\n            if value:\n                return True\n            seen_null = seen_null or value is None\n        return None if seen_null else False")
+T('C01', 'twin-coalesce-next-generator', QC,
+  "        for arg in self.args:\n            value = arg(context)\n            if value is not None:\n                return value\n        return None",
+  "        values = (arg(context) for arg in self.args)\n        return next((value for value in values if value is not None), None)")
+M('C01', 'or-evaluates-all-operands', QC,
+  "            if value:\n                return True\n        return r",
+  "            if value:\n                r = True\n        return r", ('R-3VL', 'EvalOr'))
 # ---------------------------------------------------------------------- C02
 R('C02', 'regress-D1-column-equality', '67e29fa-compare-typed-table-column-accessors-by-the-attrib.diff',
   ('R-EQFAITH', 'GetAttrColumn'))
@@ -906,7 +918,7 @@ M('C19', 'print-becomes-legacy-command', SH,
   "{'clear', 'errors', 'exit', 'help', 'history', 'parse', 'quit', 'run', 'set'}", "{'clear', 'errors', 'exit', 'help', 'history', 'parse', 'print', 'quit', 'run', 'set'}",
   ('R-DISPATCH', 'onecmd'))
 M('C19', 'numberify-setting-ignored', SH,
-  "        if self.settings.numberify:\n            desc, rows = numberify_results(desc, rows, dcontext.build())\n", "", ('R-DISPATCH', 'on_Select'))
+  "        if self.settings.numberify:\n            desc, rows = numberify_results(desc, rows, dcontext.build())\n", "", ('R-SELECTOUT', 'on_Select'))
 M('C19', 'quiet-suppresses-when-no-errors-only', SH,
   "        if self.context.errors and not self.no_errors:", "        if self.context.errors or not self.no_errors:", ('R-OPTUSED', 'do_reload'))
 M('C19', 'quiet-inverted', SH,
